@@ -126,6 +126,18 @@ impl PathSliceList {
         model: Option<bool>,
     ) -> Result<(), TmplError> {
         let br = |w: &mut JsExprWriter<W>| -> Result<(), TmplError> {
+            // a loop item has no path when its list has none at run time (e.g. the other branch
+            // of a conditional list expression): then there is nothing to spread
+            let item_path_var = match self.0.first() {
+                Some(PathSlice::ScopeIndex(i)) => match &scopes[*i].lvalue_path {
+                    ScopeVarLvaluePath::Var { var_name, .. } => Some(var_name),
+                    _ => None,
+                },
+                _ => None,
+            };
+            if let Some(var_name) = item_path_var {
+                write!(w, "({}?", var_name)?;
+            }
             write!(w, "[")?;
             let mut write_items = || -> Result<bool, TmplError> {
                 let mut iter = self.0.iter();
@@ -185,6 +197,9 @@ impl PathSliceList {
             write!(w, "]")?;
             if need_slice_1 {
                 write!(w, ".slice(1)")?;
+            }
+            if item_path_var.is_some() {
+                write!(w, ":null)")?;
             }
             Ok(())
         };
